@@ -150,6 +150,7 @@ type vhsrvBackend struct {
 	inTail     bool    // after a successful RenameAt of the current request
 	tailPanic  bool    // a panic was injected into the order-dependent tail
 	faultArmed bool
+	faultMeth  int // > 0: first call of method faultMeth-1
 	faultCall  int
 	faultAns   vhsrvAns
 	faultHit   bool
@@ -217,7 +218,7 @@ func (b *vhsrvBackend) consult(m int, h uint64, names []string, h2 int64, a []ui
 	ans := def
 	idx := len(b.calls)
 	forced := false
-	if b.faultArmed && idx == b.faultCall && !b.faultHit {
+	if b.faultArmed && !b.faultHit && ((b.faultMeth == 0 && idx == b.faultCall) || (b.faultMeth > 0 && m == b.faultMeth-1)) {
 		ans = b.faultAns
 		b.faultHit = true
 		forced = true
@@ -581,6 +582,7 @@ type vhsrvReq struct {
 	// fixed histories only: force this answer at backend call index FaultCall of this request
 	FaultAns  *vhsrvAns `json:"-"`
 	FaultCall int       `json:"-"`
+	FaultMeth int       `json:"-"` // when > 0: force the answer at the first call of method FaultMeth-1 instead
 }
 
 type vhsrvStep struct {
